@@ -1410,11 +1410,29 @@ impl C03 {
                 }
             }
         }
-        // a parent must be worth at least its children
-        for i in 0..nspends {
-            let need: u64 = (0..nspends).filter(|j| spends[*j].parent_spend == Some(i)).map(|j| spends[j].amount).sum();
-            if spends[i].amount < need {
-                spends[i].amount = need + rng.below(3);
+        if rng.chance(1, 2) {
+            // a parent worth at least its children (the ordinary shape)
+            for i in 0..nspends {
+                let need: u64 = (0..nspends).filter(|j| spends[*j].parent_spend == Some(i)).map(|j| spends[j].amount).sum();
+                if spends[i].amount < need {
+                    spends[i].amount = need + rng.below(3);
+                }
+            }
+        } else {
+            // consensus balances value per bundle, not per spend: an ephemeral coin may be worth
+            // more than the spend that creates it as long as the removals cover the additions
+            for i in 0..nspends {
+                if spends[i].parent_spend.is_some() && rng.chance(1, 2) {
+                    spends[i].amount = 1000 + rng.below(3000);
+                }
+            }
+            let removals: u128 = spends.iter().map(|s| u128::from(s.amount)).sum();
+            let additions: u128 = (0..nspends).filter(|j| spends[*j].parent_spend.is_some()).map(|j| u128::from(spends[j].amount)).sum::<u128>()
+                + spends.iter().filter_map(|s| s.decoy_for).map(|x| u128::from(spends[x].amount)).sum::<u128>();
+            if removals < additions {
+                if let Some(r) = (0..nspends).find(|i| spends[*i].parent_spend.is_none()) {
+                    spends[r].amount += (additions - removals) as u64 + rng.below(3);
+                }
             }
         }
         let mut case = Case {
